@@ -104,6 +104,28 @@ func helperNotAMagefile() int { return 1 }
 '''
 
 
+def canaries(rng, prefix, cache_base="cache", with_magefiles_dir=False, small=False):
+    """Things NAMED like mage's own artefacts, holding sentinel content: whatever a command does, they are the user's."""
+    hexname = "%040x" % rng.getrandbits(160)
+    if small:       # the projects of the run scenarios: every entry is printed twice into every Coq case
+        return {prefix + ".magefile/" + hexname: b"\x7fELF not mage's to remove " + bytes(rng.randrange(256) for _ in range(20)),
+                prefix + ".magefile/sentinel.txt": "sentinel %d\n" % rng.randrange(10**6),
+                prefix + "mage_output_file.go.bak": b"package main // kept copy\n"}
+    f = {prefix + ".magefile/" + hexname: b"\x7fELF not mage's to remove " + bytes(rng.randrange(256) for _ in range(20)),
+         prefix + ".magefile/sentinel.txt": "sentinel %d\n" % rng.randrange(10**6),
+         prefix + ".magefile/deeper/" + hexname: b"deeper\n",
+         prefix + cache_base + ".d/" + hexname: b"a directory named like the cache\n",
+         prefix + hexname: b"a file named like a cached binary\n",
+         prefix + "magefile.go.bak": b"package main // backup\n",
+         prefix + "mage_output_file.go.bak": b"package main // kept copy\n",
+         prefix + "mage_output_file.go~": b"editor backup\n",
+         prefix + "notes.magefile": b"x\n"}
+    if with_magefiles_dir:
+        f[prefix + "magefiles/sentinel.txt"] = b"a directory called magefiles\n"
+        f[prefix + "magefiles/" + hexname] = b"hex in magefiles\n"
+    return f
+
+
 def gen_project(rng, layout="flat", with_import=True, mutation=None):
     """{relative path: bytes or ('link', target)} of one project"""
     n1, n2 = rng.sample(["mf_build.go", "magefile.go", "targets.go", "a_mage.go", "zz_tasks.go", "Build.go"], 2)
@@ -143,6 +165,11 @@ def gen_project(rng, layout="flat", with_import=True, mutation=None):
     f["sub/deep/y.bin"] = bytes(rng.randrange(256) for _ in range(40))
     f["lnk"] = ("link", "data.bin")
     f["dlnk"] = ("link", "sub")
+    f.update(canaries(rng, "", small=True))
+    f.update(canaries(rng, "sub/", small=True))
+    f["sub/magefiles/sentinel.txt"] = b"a directory called magefiles, not in the magefile directory\n"
+    if pre:
+        f.update(canaries(rng, pre, small=True))
     return f
 
 
@@ -206,7 +233,7 @@ def fs_term(s):
 def scenario(id, **kw):
     sc = {"id": id, "layout": "flat", "with_import": True, "mutation": None, "args": ["build"], "fail": None, "plan": "",
           "keep": False, "hashfast": False, "prewarm": False, "force": False, "compile": False, "debug": False,
-          "leftover": None, "leftover_where": "top", "crash": None, "enospc": None, "envfault": None, "out": None, "ref": None, "special": False}
+          "leftover": None, "leftover_where": "top", "crash": None, "enospc": None, "envfault": None, "out": None, "wflag": None, "ref": None, "special": False}
     sc.update(kw)
     return sc
 
@@ -243,6 +270,7 @@ def build_scenarios(rng, gen, quick):
     A(scenario("help-target", args=["-h", "build"]))
     A(scenario("imported-target", args=["tools:lint"]))
     A(scenario("no-import-project", with_import=False))
+    A(scenario("workdir-sub", wflag="sub"))
     # B: broken magefiles
     for m in ("syntax-package", "nonmage-broken", "no-magefiles", "syntax-body", "dupe-case", "dupe-import", "bad-import", "type-error"):
         A(scenario("mut-" + m, mutation=m))
@@ -461,6 +489,8 @@ def mage_args(sc, outbin):
     if sc["compile"]:
         o = sc.get("out")
         a += ["-compile", outbin if not o else (os.path.join(os.path.dirname(outbin), "outdir", OUT) if o["where"] == "abs" else OUT)]
+    if sc.get("wflag"):
+        a += ["-w", sc["wflag"]]
     if sc.get("envfault") == "workdir-missing":
         a += ["-w", os.path.join(os.path.dirname(outbin), "no-such-workdir")]
     return a + list(sc["args"])
@@ -999,6 +1029,9 @@ def command_cases(ctx, mage, rng, quick, gen):
              "proj/other.go": b"package main\n", "proj/data.bin": bytes(rng.randrange(256) for _ in range(30)),
              "proj/sub/other.go": b"package sub\n", "proj/sub/notes.txt": b"n\n",
              "cache/%040x" % rng.getrandbits(160): b"binary", "cache/keepdir/x": b"x"}
+        # canaries in every directory the command can see: start directory, -d directory, -w directory, their parent, HOME, TMPDIR
+        for pfx, mfd in (("", True), ("proj/", False), ("proj/sub/", True), ("proj/work/", True), ("home/", True), ("tmp/", True)):
+            f.update(canaries(rng, pfx, with_magefiles_dir=mfd))
         f.update(shape_files("proj/"))
         f.update(shape_files("proj/sub/"))
         f.update(shape_files("cache/"))
@@ -1009,9 +1042,10 @@ def command_cases(ctx, mage, rng, quick, gen):
         args = {"init-absent": ["-init"], "init-existing": ["-init"], "clean": ["-clean"], "version": ["-version"], "help": ["-h"],
                 "bad-flag": ["-nosuchflag"], "clean-with-words": ["-clean", "build"]}[cmd]
         if dflag:
-            args = ["-d", "sub"] + args
+            args = ["-d", "sub"] + (["-w", "work"] if n % 2 else []) + args
         b, bh = snap(top), tree_hash(top)
-        r = mage.run(os.path.join(top, "proj"), args, cache=os.path.join(top, "cache"))
+        r = mage.run(os.path.join(top, "proj"), args, cache=os.path.join(top, "cache"),
+                     env={"HOME": os.path.join(top, "home"), "TMPDIR": os.path.join(top, "tmp")})
         a, ah = snap(top), tree_hash(top)
         case = {"kind": "cmd", "command": cmd, "shape": shape, "dflag": dflag, "args": args}
         exp = dict(bh)
